@@ -42,6 +42,7 @@ import (
 	"verif/pkg/ev"
 	"verif/pkg/keys"
 	"verif/pkg/netx"
+	"verif/pkg/refcodec"
 	"verif/pkg/refnone"
 )
 
@@ -90,6 +91,19 @@ func genCase(t *rapid.T, targets []string) caseT {
 	c.Buf = rapid.SampledFrom([]uint32{8192, 8192, 16384, 65535}).Draw(t, "buf")
 	c.MaxChunks = rapid.SampledFrom([]uint32{4, 8, 16, 64}).Draw(t, "maxChunks")
 	toServer := strings.HasPrefix(c.Target, "server")
+	if c.Target == "server-auth" || c.Target == "client-auth" {
+		c.Policy = rapid.SampledFrom([]string{ua.SecurityPolicyURIBasic256Sha256, ua.SecurityPolicyURIBasic256Sha256, ua.SecurityPolicyURIBasic128Rsa15, ua.SecurityPolicyURIAes256Sha256RsaPss}).Draw(t, "policy")
+		c.Encrypt = rapid.IntRange(0, 2).Draw(t, "encrypt") != 0
+		n := rapid.IntRange(1, 4).Draw(t, "nsteps")
+		for i := 0; i < n; i++ {
+			if rapid.IntRange(0, 5).Draw(t, "keyless") == 0 {
+				c.Steps = append(c.Steps, genHostile(t, toServer, c.Buf))
+				continue
+			}
+			c.Steps = append(c.Steps, genAuth(t, c.Policy, c.Encrypt, toServer))
+		}
+		return c
+	}
 	switch c.Target {
 	case "server-raw":
 		c.ServerHasKey = rapid.Bool().Draw(t, "serverHasKey")
@@ -171,6 +185,11 @@ func genHostile(t *rapid.T, toServer bool, buf uint32) stepT {
 
 // writeSteps writes the steps to w; a flood is generated on the fly.
 func writeSteps(w io.Writer, steps []stepT, buf uint32) error {
+	return writeStepsAuth(w, steps, buf, nil)
+}
+
+// writeStepsAuth: sess secures the auth steps (and the floods of a secured session).
+func writeStepsAuth(w io.Writer, steps []stepT, buf uint32, sess *refcodec.Session) error {
 	bw := bufio.NewWriterSize(w, 1<<16)
 	seq := uint32(1000)
 	for _, s := range steps {
@@ -185,6 +204,19 @@ func writeSteps(w io.Writer, steps []stepT, buf uint32) error {
 				if _, err := bw.Write(refnone.SymChunk("MSG", 'C', channelID, tokenID, seq, uint32(1+i%f.IDs), data)); err != nil {
 					return err
 				}
+			}
+			continue
+		}
+		if s.Auth != nil {
+			if sess == nil {
+				return fmt.Errorf("malformed auth step")
+			}
+			f, err := authFrame(sess, s.Auth)
+			if err != nil {
+				return fmt.Errorf("malformed auth step")
+			}
+			if _, err := bw.Write(f); err != nil {
+				return err
 			}
 			continue
 		}
@@ -662,6 +694,10 @@ func runClientDial(c caseT) (o outcome, err error) {
 func validate(c caseT) error {
 	switch c.Target {
 	case "server-raw", "server-open", "client-open", "client-dial":
+	case "server-auth", "client-auth":
+		if refcodec.PolicyByURI(c.Policy) == nil || c.Policy == "" {
+			return fmt.Errorf("target %s needs a secured policy", c.Target)
+		}
 	default:
 		return fmt.Errorf("target %q", c.Target)
 	}
@@ -684,6 +720,10 @@ func check(c caseT) (o outcome, err error) {
 			o, err = runServerOpen(c)
 		case "client-open":
 			o, err = runClientOpen(c)
+		case "server-auth":
+			o, err = runServerAuth(c)
+		case "client-auth":
+			o, err = runClientAuth(c)
 		default:
 			o, err = runClientDial(c)
 		}
@@ -709,7 +749,26 @@ func classesOf(c caseT, o outcome) []string {
 		// first two words of the class: grammar family + message/chunk type, and the mutation words
 		w := strings.Fields(s.Class)
 		if len(w) >= 2 {
-			cl = append(cl, "step:"+w[0]+" "+w[1])
+			switch w[0] {
+			case "sym", "asym", "auth":
+				mt, ct := "other", "other"
+				if len(w[1]) == 4 {
+					switch w[1][:3] {
+					case "OPN", "MSG", "CLO":
+						mt = w[1][:3]
+					}
+					switch w[1][3] {
+					case 'F', 'C', 'A':
+						ct = w[1][3:]
+					}
+				}
+				cl = append(cl, "step:"+w[0]+" type="+mt, "step:"+w[0]+" chunk="+ct)
+				if w[0] == "auth" && len(w) >= 3 {
+					cl = append(cl, "field:auth-"+w[2])
+				}
+			default:
+				cl = append(cl, "step:"+w[0]+" "+w[1])
+			}
 		}
 		for _, x := range w[1:] {
 			if strings.HasPrefix(x, "size-") || strings.HasPrefix(x, "cut") || strings.HasPrefix(x, "policy=") || strings.HasPrefix(x, "cert=") || strings.HasPrefix(x, "thumb=") || strings.HasPrefix(x, "svc-") || strings.HasPrefix(x, "ids=") || strings.HasPrefix(x, "data=") {
@@ -776,14 +835,16 @@ func property(t *rapid.T, name string, targets []string, journal bool) {
 // in the harness goroutine, so rapid can shrink).
 func TestServer(t *testing.T) {
 	rec.Assume("server kind follows RegisterConn: the Receive loop ends at the first error; chanpair-opened channels use 2048-bit fixtures; limits come from the server's Acknowledge (the gopcua client adopts them)")
-	rapid.Check(t, func(t *rapid.T) { property(t, "TestServer", []string{"server-raw", "server-raw", "server-open"}, false) })
+	rapid.Check(t, func(t *rapid.T) {
+		property(t, "TestServer", []string{"server-raw", "server-raw", "server-raw", "server-open", "server-open", "server-auth"}, false)
+	})
 }
 
 // TestClient: hostile peers against gopcua client channels. The dispatcher
 // goroutine runs Receive, so a panic ends the process: each case is journaled.
 func TestClient(t *testing.T) {
 	rec.Assume("client kind: a panic in the dispatcher goroutine ends the test process; the journaled case is reported by the driver (no shrinking)")
-	rapid.Check(t, func(t *rapid.T) { property(t, "TestClient", []string{"client-open", "client-dial"}, true) })
+	rapid.Check(t, func(t *rapid.T) { property(t, "TestClient", []string{"client-open", "client-open", "client-dial", "client-dial", "client-auth"}, true) })
 }
 
 // TestReplay re-runs a saved case without rapid.
